@@ -1,12 +1,13 @@
 from ..runner import Prop
 from .. import bbigen
-from ..core import parse_sx
+from ..core import parse_sx, sx
 
 class C01(Prop):
     ID = "C01"
     THEOREMS = ["C01_accept_iff", "C01_query_sections", "C01_full_span_read", "C01_roundtrip_exact",
                 "C01_read_info", "C01_chrom_table", "C01_accepted_runs", "C01_query", "C01_roundtrip",
                 "C01_roundtrip_multipass", "C01_roundtrip_file_exact", "C01_same_regions",
+                "C01_chrom_table_on_input", "C01_query_on_input", "C01_roundtrip_on_input",
                 "C01_zero_length_boundary_refuted"]
     RULE = ("bbi cases: 1-6 chromosomes (names whose first-appearance, lexicographic and id order differ), per chromosome a layout "
             "from the grammar dense/sparse/adjacent/zero-length/edge-touching/long gap/long item, arbitrary finite f32 bit patterns, "
@@ -16,8 +17,17 @@ class C01(Prop):
     TRUSTED = ["verif_hooks accessors for private header fields"]
     ASSUMPTIONS = ["f32 -0.0 is not generated (the sign of zero is not modelled)", "libdeflater round-trips (compressed files are compared at reader level only)"]
     PER_CASE_TIMEOUT = 30.0
+    MODEL_TIMEOUT = 1200.0
 
     def gen(self, rng, tier):
+        # the largest slot size the format can express (the per-section item count is a u16): a chromosome with
+        # more than 65535 values and items_per_slot = 65535.  The model takes minutes on it, so in the quick tier
+        # it is judged by the oracle alone; the thorough tier also runs the model.
+        nbig = 65537
+        big = sx([0, [1, 65535, 256, 160, 10, [[]], 1], [["chrBig", nbig + 5]],
+                  [["chrBig", i, i + 1, 0x3f800000 + (i % 7)] for i in range(nbig)],
+                  [[0, "chrBig", 0, nbig + 5], [0, "chrBig", 65530, nbig], [4]]])
+        yield big, ["max-slot", "ips=65535", "compress=1"] + (["oracle-only"] if tier == "quick" else [])
         n = 600 if tier == "quick" else 12000
         for i in range(n):
             yield bbigen.bw_case(rng, tier, fmode=rng.choice(["any", "mixed", "nice"]), extra_queries=(i % 3 == 0))
